@@ -472,7 +472,8 @@ impl Property for C17 {
                     let (p, _) = gen::program(&bytes, profile());
                     (p, bytes.iter().rev().take(16).cloned().collect())
                 };
-                let d = run_diff(&prog, &noise, &DiffCfg::default(), &RefCfg::default());
+                // (the twin check below reads variable names out of NameError messages: no unusual spellings here)
+                let d = run_diff(&prog, &noise, &DiffCfg { respell: false, ..DiffCfg::default() }, &RefCfg::default());
                 for (k, v) in &d.events {
                     ctx.label_n(&format!("ev:{}", k), *v as u64);
                 }
